@@ -332,6 +332,10 @@ func (m *Minter) Mint(spec ReqSpec, s time.Time, skew time.Duration, r *core.Rng
 	if hasDefect(ds, "cname-extra-component") != nil {
 		au.CName = rk.ParseName(spec.Client + "/admin")
 	}
+	if hasDefect(ds, "cname-fewer-components") != nil {
+		// a proper prefix of the ticket's client name (no names at all for a one-component client)
+		au.CName.Names = append([]string{}, cname.Names[:len(cname.Names)-1]...)
+	}
 	if hasDefect(ds, "cname-empty") != nil {
 		au.CName = rk.PrincipalName{Type: 1}
 	}
